@@ -1267,6 +1267,9 @@ func c09BuildScenarios(run *ev.Run, parts []c09Part, scratch string) []c09Scn {
 					}
 				}
 				for _, md := range modes {
+					if run.Quick() && md != "job-kill" && c09Phase(lab) {
+						continue // quick: phase kills (storage untouched) only in the job-kill mode
+					}
 					s := base
 					s.Mode = md
 					s.Fault.Mode = "kill"
@@ -1285,7 +1288,7 @@ func c09BuildScenarios(run *ev.Run, parts []c09Part, scratch string) []c09Scn {
 		if allModes {
 			kp := keep(rec.Inproc)
 			for k, op := range rec.Inproc {
-				if kp[k] {
+				if kp[k] && !(run.Quick() && c09Phase(c09RecLabel(op))) {
 					out = append(out, c09Scn{Part: p.Name, Mode: "inproc-error", Label: c09RecLabel(op), Op: op, Job: rec.InJob, BatchFiles: rec.InN,
 						Fault: c09Fault{Tier: "hourly", Partition: targets[0].Partition, Batch: 1, K: k, Torn: -1, Mode: "fail"}})
 				}
@@ -1306,7 +1309,7 @@ func c09BuildScenarios(run *ev.Run, parts []c09Part, scratch string) []c09Scn {
 		switch {
 		case strings.HasPrefix(s.Label, "input-delete"), strings.HasPrefix(s.Label, "output-"), strings.HasPrefix(s.Label, "manifest-"):
 			return 0
-		case strings.HasPrefix(s.Label, "temp-"), s.Label == "download-to-temp", s.Label == "storage-root-mkdir":
+		case c09Phase(s.Label):
 			return 2
 		}
 		return 1
@@ -1343,6 +1346,11 @@ func c09RelOp(op vos.Op, store, tmp string) vos.Op {
 	return op
 }
 
+// c09Phase: a call on the job's temp directory (or the no-op mkdir of the existing storage root).
+func c09Phase(label string) bool {
+	return strings.HasPrefix(label, "temp-") || label == "download-to-temp" || label == "storage-root-mkdir"
+}
+
 func c09RecLabel(op vos.Op) string { return c09Label(op, "$STORE", "$TMP") }
 
 func c09Report(run *ev.Run, parts []c09Part, scns []c09Scn, ctr map[string]int64, samples []any, complete bool) {
@@ -1358,7 +1366,7 @@ func c09Report(run *ev.Run, parts []c09Part, scns []c09Scn, ctr map[string]int64
 		labels[s.Label]++
 		modes[s.Mode]++
 	}
-	run.Coverage["rule"] = "one evaluation = one (partition, fault mode, target job, mutating file-system call k of that job [, torn length of a write]) executed on the real Manager/Job/ManifestManager/LocalBackend/DuckDB with real job subprocesses, plus one crash-free run per partition and mode; every call of the target job's recorded log is a fault point (calls of package compaction on the temp directory = phase kills, calls of LocalBackend = storage mutations); non-trivial = the job really reached the call and was killed / got EIO there (checked from the job process's own log); distinct because (partition, mode, job, k, torn) differ"
+	run.Coverage["rule"] = "one evaluation = one (partition, fault mode, target job, mutating file-system call k of that job [, half-length torn write for the manifest temp file and the uploaded .part]) executed on the real Manager/Job/ManifestManager/LocalBackend/DuckDB with real job subprocesses, followed by later cycles (+2h each) until the listing is stable (<=3), plus one crash-free run per partition (subprocess and in-process). Fault points = EVERY mutating call of LocalBackend made by the target job (manifest mkdir/temp create/write/rename, partition mkdir, .part create/write/rename, each input delete, manifest delete, empty-dir remove) and, as phase kills, the calls of package compaction on its temp directory (both mkdirs, the first and the last of the storage-neutral download calls, the cleanup) and NewLocalBackend's mkdir of the root. quick: phase kills only in job-kill mode; job-error/inproc-error only on partition plain6; target = first hourly job. thorough: all modes on all partitions, and for 4 partitions also the second hourly job and the first daily job as targets (job-kill). non-trivial = the job really reached the call and was killed / got EIO there (read from the job process's own log; otherwise the run is flagged); distinct because (partition, mode, job, k, torn) differ"
 	run.Coverage["samples"] = samples
 	run.Coverage["partitions"] = names
 	run.Coverage["fault_points_by_step"] = labels
